@@ -69,6 +69,9 @@ pub struct Created {
     pub tn: u32,
     /// had the body read anything tracked before creating (durability stamp LOW vs read-free)
     pub after_read: bool,
+    /// durability (0 LOW .. 3 NEVER_CHANGE) the creator had accumulated when it created the
+    /// struct, computed by the body interpreter with salsa's rules (min over reads so far)
+    pub dur: u8,
 }
 
 #[derive(Clone, Debug, PartialEq, Eq)]
@@ -87,6 +90,8 @@ pub struct ExecRec {
     pub pushed: Vec<u32>,
     pub specified: Vec<(u64, u32)>,
     pub out: OutRepr,
+    /// durability of the whole execution (what salsa stores in the memo)
+    pub dur: u8,
 }
 
 impl ExecRec {
@@ -104,6 +109,7 @@ impl ExecRec {
             pushed: vec![],
             specified: vec![],
             out: OutRepr::default(),
+            dur: 3,
         }
     }
 }
